@@ -820,3 +820,53 @@ def last_field(body, op, prog=None):
     if t.get('k') == 'tuple':
         return ('tuple', last['f'])
     return None
+
+
+def resolve_def(body, l, depth=0):
+    """Follow plain copies/moves back to the defining statement of a value: returns single_def tuple or None."""
+    while l is not None and depth < 20:
+        d = single_def(body, l)
+        if d is None:
+            return None
+        if d[0] == 'assign' and d[3]['rv']['k'] == 'use' and op_local(d[3]['rv']['op']) is not None:
+            l = op_local(d[3]['rv']['op'])
+            depth += 1
+            continue
+        return d
+    return None
+
+
+def bool_switches(body, root):
+    """Switches on a bool derived (by copies / Not) from local `root`: list of (block, target_if_root_true, target_if_root_false)."""
+    out = []
+    der = derived(body, {root}, through_calls=False)
+    for sb in range(body.n):
+        st = body.term(sb)
+        if st['k'] != 'switch' or 0 not in st['values']:
+            continue
+        dl = op_local(st['discr'])
+        if dl is None or dl not in der:
+            continue
+        # count negations along the copy chain
+        neg = False
+        cur = dl
+        ok = True
+        steps = 0
+        while cur != root and steps < 20:
+            d = single_def(body, cur)
+            steps += 1
+            if d and d[0] == 'assign' and d[3]['rv']['k'] == 'use' and op_local(d[3]['rv']['op']) is not None:
+                cur = op_local(d[3]['rv']['op'])
+            elif d and d[0] == 'assign' and d[3]['rv']['k'] == 'unop' and d[3]['rv']['op'] == 'Not' and op_local(d[3]['rv']['a']) is not None:
+                neg = not neg
+                cur = op_local(d[3]['rv']['a'])
+            else:
+                ok = False
+                break
+        if not ok or cur != root:
+            continue
+        t_true, t_false = st['otherwise'], st['targets'][st['values'].index(0)]
+        if neg:
+            t_true, t_false = t_false, t_true
+        out.append((sb, t_true, t_false))
+    return out
